@@ -479,6 +479,26 @@ static std::string perturb_bytes(Bytes& b, size_t off, size_t n, Src& s) {
     return "replaced by " + hex(r);
 }
 
+// the deepest layer of the request that, handed the reply from its own offset, does not recognise it
+static std::string rejecting_layer(const PDU& r, const Bytes& m, const Layout& L, unsigned placement) {
+    std::string culprit = "none";
+    unsigned tags = 0;
+    for (const PDU* p = &r; p; p = p->inner_pdu()) {
+        int off = -1;
+        switch (p->pdu_type()) {
+            case PDU::ETHERNET_II: case PDU::DOT3: off = L.eth; break;
+            case PDU::DOT1Q: off = tags < 2 ? L.tag[tags] : -1; ++tags; break;
+            case PDU::IP: case PDU::IPv6: off = L.ip; break;
+            case PDU::TCP: case PDU::UDP: case PDU::ICMP: case PDU::ICMPv6: off = L.l4; break;
+            case PDU::DNS: off = L.dns; break;
+            default: break;
+        }
+        if (off < 0 || (size_t)off > m.size()) continue;
+        if (!match(*p, m.data() + off, m.size() - off, placement)) culprit = short_cls(demangled(typeid(*p)));
+    }
+    return culprit;
+}
+
 struct PairCase {
     const Req& q;
     const PDU& r;
@@ -557,14 +577,16 @@ static void pair_case(Src& s, Ctx& ctx, bool extended) {
     if (q.ntags) ctx.label("vlan");
     {
         bool got = match(*r, mir.b, placement);
-        std::string cls = "";
         if (q.has_net && !q.v6) {
             const IP* ip = r->find_pdu<IP>();
-            if (ip && (int)ip->header_size() != mir.L.iphl) { cls = "ip-header-length-differs:"; ctx.label("reply-ihl-differs"); }
+            if (ip && (int)ip->header_size() != mir.L.iphl) ctx.label("reply-ihl-differs");
         }
         if (q.v6 && mir.L.iphl > 40) ctx.label("reply-ext-headers");
         ctx.label("mirror-accepted");
-        VCHECK(ctx, got, "C14:mirror-rejected:" + cls + chain, desc << ": the mirrored reply was not recognised: " << hex(mir.b, 1024));
+        if (!got) {
+            std::string layer = rejecting_layer(*r, mir.b, mir.L, placement);
+            VCHECK(ctx, false, "C14:mirror-rejected:" + layer, desc << ": the mirrored reply was not recognised (deepest layer that rejects its part: " << layer << "): " << hex(mir.b, 1024));
+        }
     }
 
     // ---- (b) single-field perturbations
